@@ -260,7 +260,14 @@ class ProtocolOracle:
 
     def on_step(self, unit, e, o, before, after):
         self.checked += 1
+        if o is not None and o[0] == 'H':
+            self.failures.append(('state_outside_protocol', 'after %r the unit holds a value outside the protocol\'s '
+                                  'state space: %s' % (list(e), o[1]), dict(step_event=list(e))))
+            return
         if e[0] != 'cmd':
+            if o is not None and o[0] == 'E':
+                self.failures.append(('internal_error', 'time step %d: %s' % (e[1], o[1]), dict(step_event=list(e))))
+                return
             rule, exp_s = protocol_tick(before, e[1], unit.clk.ticks)
             if after != exp_s:
                 diff = sorted(k for k in after if after[k] != exp_s.get(k))
@@ -296,7 +303,11 @@ def check_events(impl, idx, clock0, events):
     for e in events:
         e = (e[0],) + tuple(e[1:])
         o = UC.apply_event(unit, e)
-        after = unit.snapshot()
+        try:
+            after = unit.snapshot()
+        except UC.HarnessError as ex:
+            orc.on_step(unit, e, ('H', str(ex)), before, before)
+            break
         orc.on_step(unit, e, o, before, after)
         before = after
         if o is not None and o[0] in ('B', 'E'):
